@@ -137,8 +137,8 @@ def multiplier_for(spec, shown_unit):
         return None
     if rank == 0:
         return 1
-    if "c" in flags and "d" in flags:
-        return None
+    # `c` and `d` together: `d` is documented as "1000-based units, not 1024-based" without exception, and the unit names `c`
+    # asks for are the ones `d` prints anyway - the text reads back with base 1000
     dec_unit = unit in ("kb", "mb", "gb", "tb")
     bin_unit = unit in ("kib", "mib", "gib", "tib")
     if "d" in flags:
@@ -264,7 +264,7 @@ def run_render(res, rng, w, home, specs, sizes, via):
                 ok_all = False
             last = (rank, value, size, rows[0])
             mult = multiplier_for(spec, shown)
-            if mult is not None and not spec[3] and not ("c" in spec[2] and "d" in spec[2]):
+            if mult is not None and not spec[3]:
                 # no fixed unit: the unit shown is the largest one the size reaches (1 <= size / unit < base), e.g. 1000 bytes under
                 # the decimal flag are 1 KB, not 1000 B
                 base = 1000 if "d" in spec[2] else 1024
